@@ -323,7 +323,8 @@ def check_every_message_fed(prog, r):
     some messages (routes dropped for an AS loop, ..) makes a peer that sends only such UPDATEs look silent: RFC 4271 lets it
     omit KEEPALIVEs while it sends UPDATEs, so the session dies of hold-timer expiry although the peer is alive."""
     rs = prog.one(r"rustybgpd::event::PeerSession::run_select")
-    fv = view(prog, prog.body_key(rs))
+    from ..util import body_holding
+    fv = body_holding(prog, rs, r"rustybgp_packet::bgp::validate_message$")
     r.analysed(prog.name(rs))
     vm = [b for b, t in fv.calls(re.compile(r"rustybgp_packet::bgp::validate_message$"))]
     rx = [b for b, t in fv.calls(re.compile(r"rustybgpd::event::PeerSession::rx_msg$"))]
